@@ -166,6 +166,28 @@ def Fields.layout (cfg : Cfg) (align : Bool) : Fields → LState → Except Err 
       | .ok (sz, al, offs) => .ok (sz, al, offset :: offs)
 end
 
+mutual
+/-- definition-time errors: the structure metaclass computes the layout of every nested structure when it is
+    created, innermost first; the first failure aborts the definition -/
+def Ty.defErr (cfg : Cfg) : Ty → Option Err
+  | .sc _ _ => none
+  | .enum _ _ _ => none
+  | .ptr t => t.defErr cfg
+  | .arr e _ => e.defErr cfg
+  | .struct al fs =>
+    match Fields.defErr cfg fs with
+    | some e => some e
+    | none => match Fields.layout cfg al fs { offset := some 0, alignment := 0, bitsType := none, bitsFieldOffset := some 0, bitsRemaining := 0 } with
+      | .error e => some e
+      | .ok _ => none
+  | .union _ fs => Fields.defErr cfg fs
+def Fields.defErr (cfg : Cfg) : Fields → Option Err
+  | .nil => none
+  | .cons _ _ t _ r => match t.defErr cfg with
+    | some e => some e
+    | none => Fields.defErr cfg r
+end
+
 def LState.init : LState := { offset := some 0, alignment := 0, bitsType := none, bitsFieldOffset := some 0, bitsRemaining := 0 }
 
 /-- layout of a structure body -/
